@@ -163,6 +163,16 @@ def run(ctx: Context) -> None:
                             val = st.value if isinstance(st, ast.Assign) else None
                             role_ok = val is not None and const_name(val) == w and norm(st.targets[0]) == "self._state"
                             detail += f" (role {role}: may store {w})"
+                if not role_ok and f.cls in (h11c, h2c) and isinstance(st, ast.Assign) and const_name(st.value) == "IDLE" and norm(st.targets[0]) == "self._state":
+                    # the idle transition made from another routine of the class (a request that gives up before it has a stream, a shared helper): judged by the
+                    # condition it stands under, which is what R2 demands of the transition, not by where it is written
+                    at = _atoms(st)
+                    if f.cls is h2c:
+                        role_ok = "not:self._events" in at and any(a.endswith("==self._state") and "ACTIVE" in a for a in at)
+                    else:
+                        role_ok = {"h11.DONE==self._h11_state.our_state", "h11.DONE==self._h11_state.their_state"} <= at
+                    if role_ok:
+                        detail += f" - outside the role table, but under the idle guard {sorted(at)[:4]}"
                 rep.ob("C01.R1", fkey(tree, f, norm(st)), role_ok, where(f, st), detail + ("" if role_ok else " - not an allowed writer / constant"))
         rep.floor("C01.R1", f"stores to the connection state ({tree})", nstores, 6)
         _r2(ctx, tree, N, h11c, h2c)
